@@ -124,3 +124,42 @@ func VerifC10_History() {
 	}
 	verifrt.DropSpawned()
 }
+
+// VerifC10_RestartAfterFailedLoad: disk storage. A first load of the distribution-point CRL that
+// does not succeed (server down, garbage, bad signature, or a background fetch that never ran),
+// then a restart, then a handshake while the server is down: strict mode must still deny, in both
+// fetch modes - nothing left behind by the failed attempt may count as a loaded CRL.
+func VerifC10_RestartAfterFailedLoad() {
+	fetch := config.CRLFetchMode(verifrt.Choose(2))
+	c := newChecker(true, fetch, true, config.SignatureValidationModeVerify)
+	verifrt.InstallDirListing()
+	listedSerial, probe := sym("listed"), sym("probe")
+	verifrt.Assume(probe.Cmp(listedSerial) != 0)
+	pub := crlrepository.VerifNewCRL("pub", "CN=I1", listedSerial)
+	switch verifrt.Choose(4) {
+	case 0:
+		crlrepository.VerifSetServer(urlA, false, nil)
+	case 1:
+		crlrepository.VerifSetServer(urlA, true, nil)
+	case 2:
+		pub.SetSigOK(false)
+		crlrepository.VerifSetServer(urlA, true, pub)
+	case 3:
+		pub.SetRejectAtEnd(true)
+		crlrepository.VerifSetServer(urlA, true, pub)
+	}
+	cert := crlrepository.VerifCert("CN=I1", probe, urlA)
+	st, err := c.IsRevoked(cert, chainFor(cert))
+	verifrt.Assert(err != nil || st == nil || st.Revoked, "strict: denied while no acceptable CRL was loaded")
+	if verifrt.Choose(2) == 1 {
+		verifrt.RunSpawned() // the background job runs (and fails) before the restart
+	}
+	verifrt.Reboot()
+	c.crlRepository = crlrepository.VerifNewRepo(true, c.crlConfig)
+	c.crlRepository.DeleteTempFilesIfExist()
+	crlrepository.VerifSetServer(urlA, false, nil)
+	st, err = c.IsRevoked(cert, chainFor(cert))
+	verifrt.Reach("after-restart")
+	verifrt.Assert(err != nil || st == nil || st.Revoked, "strict: still denied after a restart when the CRL was never successfully loaded")
+	verifrt.DropSpawned()
+}
